@@ -393,6 +393,10 @@ def record_table(level):
 
 def gen_raw_samples(n_bytes, rng, type_code, specials=True):
     """raw sample bytes: random with a sprinkling of special bit patterns"""
+    if n_bytes > 2**27:
+        # very large images: a random block of odd length repeated (lines still differ)
+        block = rng.randbytes(2**20 + 7)
+        return (block * (n_bytes // len(block) + 1))[:n_bytes]
     raw = bytearray(rng.randbytes(n_bytes))
     if not specials or n_bytes == 0:
         return bytes(raw)
